@@ -124,7 +124,7 @@ def run(ctx):
     for cname, rel in (('BubblePoint', BP), ('DewPoint', DP)):
         f = prog.method(cname, '__new__', rel=rel)
         caches = {t.id for n in walk_no_nested(f.node) if isinstance(n, ast.Assign) and src(n.value).endswith('._cached') for t in n.targets if isinstance(t, ast.Name)}
-        knames = {src(n.left) for n in walk_no_nested(f.node) if isinstance(n, ast.Compare) and isinstance(n.ops[0], ast.In) and src(n.comparators[0]) in caches}
+        knames = {src(n.left) for n in walk_no_nested(f.node) if isinstance(n, ast.Compare) and isinstance(n.ops[0], (ast.In, ast.NotIn)) and src(n.comparators[0]) in caches}
         key = [n for n in walk_no_nested(f.node) if isinstance(n, ast.Assign) and src(n.targets[0]) in knames]
         if not key or not isinstance(key[0].value, ast.Tuple):
             d4.fail('%s.__new__' % cname, 'no-key', 'cache key not found', f, f.node)
@@ -442,46 +442,74 @@ def bracket_rule(ctx, rule):
     for cname, rel in (('BubblePoint', BP), ('DewPoint', DP)):
         f = prog.method(cname, '__new__', rel=rel)
         cons = '%s.__new__' % cname
-        dom = [n for n in walk_no_nested(f.node) if isinstance(n, ast.Assign) and isinstance(n.targets[0], ast.Tuple) and len(n.targets[0].elts) == 2
-               and isinstance(n.value, ast.Call) and all(isinstance(e, ast.Name) for e in n.targets[0].elts)]
-        if len(dom) != 1:
+        # the constructing path(s): the instance is made by <...>.__new__(cls) and its attributes are stored
+        ps, _ = run_paths(f.node, follow_except=False)
+        DOM = re.compile(r'^\(?(?P<call>[\w.]+\(.*\))\)?\[(?P<i>[01])\]$')
+        per_path = []
+        for p in ps:
+            if p.raised:
+                continue
+            inst = {e.target for e in p.events if e.kind == 'assign' and isinstance(e.stmt, ast.Assign) and isinstance(e.stmt.value, ast.Call)
+                    and isinstance(e.stmt.value.func, ast.Attribute) and e.stmt.value.func.attr == '__new__'}
+            if not inst:
+                continue
+            ends = {}      # attr -> (domain call text, 0/1, stmt)
+            pbs = {}       # attr -> (reducer, set of ends, stmt)
+            attr_end = {}
+
+            def end_of(x):
+                """which end of the domain does the expression x denote on this path (0 / 1 / None)"""
+                if isinstance(x, ast.Name) and x.id in p.lin.env:
+                    mm = DOM.match(p.lin.env[x.id].pretty())
+                    return int(mm.group('i')) if mm else None
+                if isinstance(x, ast.Attribute) and isinstance(x.value, ast.Name) and x.value.id in inst:
+                    return attr_end.get(x.attr)
+                return None
+
+            for e in p.events:
+                if e.kind != 'store' or not isinstance(e.node, ast.Attribute) or not isinstance(e.node.value, ast.Name) or e.node.value.id not in inst:
+                    continue
+                mm = DOM.match(e.value.pretty()) if isinstance(e.value, Form) else None
+                if mm:
+                    ends[e.node.attr] = (mm.group('call'), int(mm.group('i')), e.stmt)
+                    attr_end[e.node.attr] = int(mm.group('i'))
+                    continue
+                v = e.stmt.value if isinstance(e.stmt, ast.Assign) else None
+                if isinstance(v, ast.Name):
+                    from ..resolve import path_defs
+                    v = path_defs(p, e).get(v.id, v)
+                if isinstance(v, ast.Call) and isinstance(v.func, ast.Name) and v.func.id in ('min', 'max') and v.args:
+                    es = {end_of(x) for x in ast.walk(v.args[0]) if isinstance(x, (ast.Name, ast.Attribute))}
+                    pbs[e.node.attr] = (v.func.id, {x for x in es if x is not None}, e.stmt)
+            per_path.append((ends, pbs))
+        if not per_path or not all(len({c for c, i, st in ends.values()}) == 1 for ends, pbs in per_path):
             rule.fail(cons, 'domain', 'the temperature domain (lo, hi = f(chemicals)) was not found', f, f.node)
             continue
-        lo, hi = [e.id for e in dom[0].targets[0].elts]
-        stores = {}
-        inst = {t.id for n in walk_no_nested(f.node) if isinstance(n, ast.Assign) and isinstance(n.value, ast.Call) and isinstance(n.value.func, ast.Attribute)
-                and n.value.func.attr == '__new__' for t in n.targets if isinstance(t, ast.Name)}
-        for n in walk_no_nested(f.node):
-            for t in (n.targets if isinstance(n, ast.Assign) else []):
-                if isinstance(t, ast.Attribute) and isinstance(t.value, ast.Name) and t.value.id in inst:
-                    stores[t.attr] = n
-        t_attrs = [a for a, n in stores.items() if isinstance(n.value, ast.Name) and n.value.id in (lo, hi) and len(n.targets) == 1]
-        tlo = [a for a in t_attrs if stores[a].value.id == lo]
-        thi = [a for a in t_attrs if stores[a].value.id == hi]
+        ends, pbs = per_path[0]
+        if any((sorted((a, i) for a, (c, i, st) in e2.items()), sorted((a, r, sorted(x)) for a, (r, x, st) in p2.items()))
+               != (sorted((a, i) for a, (c, i, st) in ends.items()), sorted((a, r, sorted(x)) for a, (r, x, st) in pbs.items())) for e2, p2 in per_path[1:]):
+            rule.fail(cons, 'domain', 'the constructing paths store different brackets', f, f.node)
+            continue
+        tlo = [a for a, (c, i, st) in ends.items() if i == 0]
+        thi = [a for a, (c, i, st) in ends.items() if i == 1]
+        dom_stmt = next(iter(ends.values()))[2]
         if len(tlo) == 1 and len(thi) == 1:
-            rule.ok(cons, 'self.%s, self.%s = lower, upper end of the domain' % (tlo[0], thi[0]), f, dom[0])
+            rule.ok(cons, 'self.%s, self.%s = lower, upper end of the domain' % (tlo[0], thi[0]), f, dom_stmt)
         else:
-            rule.fail(cons, 'T-bracket', 'the two ends of the temperature domain are not stored as one lower and one upper bound', f, dom[0])
+            rule.fail(cons, 'T-bracket', 'the two ends of the temperature domain are not stored as one lower and one upper bound', f, dom_stmt)
             continue
-        # pressure bounds: reducer(<psat>(<T end>) for ...)
-        pb = {}
-        for a, n in stores.items():
-            v = n.value
-            if isinstance(v, ast.Call) and isinstance(v.func, ast.Name) and v.func.id in ('min', 'max') and v.args:
-                ends = {x.id for x in ast.walk(v.args[0]) if isinstance(x, ast.Name) and x.id in (lo, hi)}
-                pb[a] = (v.func.id, ends, n)
-        lows = [a for a, (r, ends, n) in pb.items() if r == 'min']
-        highs = [a for a, (r, ends, n) in pb.items() if r == 'max']
+        lows = [a for a, (r, es, n) in pbs.items() if r == 'min']
+        highs = [a for a, (r, es, n) in pbs.items() if r == 'max']
         if len(lows) != 1 or len(highs) != 1:
-            rule.fail(cons, 'P-bracket', 'expected one min(...) and one max(...) pressure bound, found %s' % sorted(pb), f, f.node)
+            rule.fail(cons, 'P-bracket', 'expected one min(...) and one max(...) pressure bound, found %s' % sorted(pbs), f, f.node)
             continue
-        for a, want, word in ((lows[0], lo, 'lower'), (highs[0], hi, 'upper')):
-            r, ends, n = pb[a]
-            if ends == {want}:
+        for a, want, word in ((lows[0], 0, 'lower'), (highs[0], 1, 'upper')):
+            r, es, n = pbs[a]
+            if es == {want}:
                 rule.ok(cons, 'self.%s = %s over the vapour pressures at the %s end of the temperature domain' % (a, r, word), f, n)
             else:
                 rule.fail(cons, 'P-bracket-' + word, 'self.%s = %s(...) is evaluated at %s, not at the %s end of the temperature domain: the bracket [%s, %s] can exclude the root'
-                          % (a, r, sorted(ends), word, lows[0], highs[0]), f, n)
+                          % (a, r, sorted(('lower', 'upper')[x] for x in es), word, lows[0], highs[0]), f, n)
         shapes[cname] = (tlo[0], thi[0], lows[0], highs[0])
     if len(shapes) == 2:
         a, b = shapes.values()
